@@ -129,6 +129,22 @@ fn judge_generic<T: Clone + PartialOrd + Debug>(c: &Ctx, l: &mut Local, a: &T, b
         if deg_want {
             l.count("degenerate two-sided");
         }
+        // the standard range view reports the stored bounds as inclusive bounds
+        {
+            use std::ops::{Bound, RangeBounds};
+            l.eval();
+            let ws = match wl {
+                Some(x) => Bound::Included(x),
+                None => Bound::Unbounded,
+            };
+            let we = match wh {
+                Some(x) => Bound::Included(x),
+                None => Bound::Unbounded,
+            };
+            if i.start_bound() != ws || i.end_bound() != we {
+                bad(c, l, &format!("RangeBounds::start_bound/end_bound|{}", k), "the range view does not report the stored bounds (inclusive)".into(), json!({"interval": format!("{:?}", i), "start_bound": format!("{:?}", i.start_bound()), "end_bound": format!("{:?}", i.end_bound())}));
+            }
+        }
         // option-pair round trip
         l.eval();
         let t: (Option<T>, Option<T>) = i.clone().into();
